@@ -284,3 +284,68 @@ pub fn run_c07(out: &mut Out, seed: u64, thorough: bool) {
         run_line(out, &mut s, "ram");
     }
 }
+
+// ---------------------------------------------------------------------------------------------
+// C11: assembly step == single edges to the next boundary, from every mid-run state.
+
+pub fn run_c11(out: &mut Out, seed: u64, thorough: bool) {
+    let mut rng = Rng::new(seed);
+    // 1. termination + equality for all 256 opcode bytes at the program counter (and second bytes)
+    let reps = if thorough { 8 } else { 1 };
+    for op in 0..=255u32 {
+        for rep in 0..reps {
+            let seconds: Vec<u32> = if op >= 0xF0 { (0..=255).filter(|b| thorough || b % 8 == (op + rep) % 8 || crate::c_flow::defined_second(*b as u8)).collect() } else { vec![0] };
+            for b2 in seconds {
+                let mut s = Sess::new();
+                let mut prog = vec![op as u8];
+                if op >= 0xF0 {
+                    if (op & 0x0F) == 0x0B || (op & 0x0F) == 0x0F {
+                        prog.push(rng.byte() % 0xE0);
+                    }
+                    prog.push(b2 as u8);
+                }
+                while prog.len() < 12 {
+                    prog.push(rng.byte());
+                }
+                run_line(out, &mut s, "new");
+                run_line(out, &mut s, &format!("load 0 255 {}", hexs(&prog)));
+                run_line(out, &mut s, "mode A");
+                for _ in 0..3 {
+                    run_line(out, &mut s, "spec.asmstep");
+                    run_line(out, &mut s, "clock");
+                    run_line(out, &mut s, "d");
+                }
+            }
+        }
+    }
+    // 2. every mid-run state of generated runs: step issued at every single edge
+    let cases = if thorough { 400 } else { 40 };
+    for c in 0..cases {
+        let mut s = Sess::new();
+        run_line(out, &mut s, "new");
+        let l = if c % 2 == 0 { format!("load 16 255 {}", hexs(&confined_program(&mut rng))) } else { load_line(&mut rng) };
+        if c < 2 {
+            out.sample(l.clone());
+        }
+        run_line(out, &mut s, &l);
+        run_line(out, &mut s, "busw 249 1");
+        for i in 0..300 {
+            if rng.chance(1, 25) {
+                let st = stimulus(&mut rng);
+                run_line(out, &mut s, &st);
+            }
+            run_line(out, &mut s, "spec.asmstep");
+            // mode switches at arbitrary points do not alter the computation
+            if rng.chance(1, 10) {
+                run_line(out, &mut s, "mode A");
+                run_line(out, &mut s, "clock");
+                run_line(out, &mut s, "mode R");
+            } else {
+                run_line(out, &mut s, "edge");
+            }
+            if i % 5 == 0 {
+                run_line(out, &mut s, "d");
+            }
+        }
+    }
+}
